@@ -160,7 +160,7 @@ KWrite(s, e, syms) == [s EXCEPT !.q[Other(e)] = @ \o syms, !.sent[Other(e)] = @ 
 
 \* Async::new (:62).  The registration fails for a regular file (EPERM) and for an fd that is still in the epoll
 \* set (EEXIST); the error path frees the slot and restores the flags, and leaves the poller alone (kill() deletes
-\* the fd only when this adapter registered it, :250).
+\* the fd only when this adapter registered it, :255).
 AdaptFails(s, f) == f = File \/ s.ep[f].reg
 DoAdapt(s, f) ==
   LET was == s.nb[f]
@@ -178,17 +178,17 @@ DoAdaptAgain(s, f) ==
       s2 == IF "failed_adapt_leaks" \in Variants THEN [s1 EXCEPT !.occ = @ + 1] ELSE s1
   IN IF "failed_adapt_kills_other" \in Variants THEN [s2 EXCEPT !.ep[f] = [reg |-> FALSE, int |-> {}, armed |-> FALSE]] ELSE s2
 
-\* Drop (:199) and into_inner (:135, which takes the fd out and then drops the adapter): kill + restore the flags
+\* Drop (:200) and into_inner (:136, which takes the fd out and then drops the adapter): kill + restore the flags
 DoDrop(s, f) ==
   [s EXCEPT !.ad[f] = [@ EXCEPT !.live = FALSE, !.wk = NoWk],
             !.occ = @ - 1,
             !.ep[f] = IF "drop_keeps_fd" \in Variants THEN @ ELSE [reg |-> FALSE, int |-> {}, armed |-> FALSE],
             !.nb[f] = IF "flags_not_restored" \in Variants THEN @ ELSE s.ad[f].was]
 
-\* awaited_interest (:282): the directions that have a waker
+\* awaited_interest (:289): the directions that have a waker
 Awaited(wk) == {x \in Bits : wk[x] # "none"}
 
-\* register_waker (:143): store the waker in the slot of its direction, interest = awaited_interest(),
+\* register_waker (:144): store the waker in the slot of its direction, interest = awaited_interest(),
 \* reregister(fd, interest, OneShot)
 RegisterWaker(s, e, x, w) ==
   LET wk2  == IF Old THEN [NoWk EXCEPT ![x] = w] ELSE [s.ad[e].wk EXCEPT ![x] = w]
@@ -200,11 +200,11 @@ RegisterWaker(s, e, x, w) ==
      ELSE IF skip \/ ~s1.ep[e].reg THEN s1
      ELSE [s1 EXCEPT !.ep[e] = [reg |-> TRUE, int |-> int2, armed |-> TRUE], !.ad[e].rint = int2]
 
-\* IoDispatcher::take_readiness (:270): only the bit asked for is consumed
+\* IoDispatcher::take_readiness (:277): only the bit asked for is consumed
 TakeLast(s, e, x) ==
   [s EXCEPT !.ad[e].last = IF Old \/ "readiness_consumed_whole" \in Variants THEN {} ELSE @ \ {x}]
 
-\* process_events (:291) for the readiness rd: the wakers that are woken
+\* process_events (:298) for the readiness rd: the wakers that are woken
 WokenBy(s, e, rd) ==
   IF "no_wake" \in Variants THEN {}
   ELSE IF Old THEN {s.ad[e].wk[x] : x \in Bits} \ {"none"}
@@ -232,7 +232,9 @@ ProcessIoW(s, e, rd, ws) ==
                  IN [s EXCEPT !.ad[e].last = @ \cup rd, !.ad[e].interest = left, !.ad[e].wk = wk2,
                               !.ad[e].rint = IF rearm THEN left ELSE @,
                               !.ep[e] = IF rearm THEN [reg |-> TRUE, int |-> left, armed |-> TRUE] ELSE @]
-  IN Wake(s1, ws)
+      \* the read waker is woken before the write waker (:308, :313): that is the order of the executor's queue
+      first == ws \cap {s.ad[e].wk["r"]}
+  IN Wake(Wake(s1, first), ws \ first)
 ProcessIo(s, e, rd) == ProcessIoW(s, e, rd, WokenBy(s, e, rd))
 
 ------------------------------------------------------------------------------
